@@ -8,7 +8,13 @@
 (b) structural faults (choices / availabilities / nests / Hessian without gradient / bad tables);
 (c) missing-data placement: a pool of formulas x every (row, column) cell of a table set to the
     missing-data code (default and a custom one), against the lazy 'reads' semantics of the reference;
-(d) no false rejection: every unfaulted skeleton of (a)-(c) is accepted and gives the reference value.
+(d) no false rejection: every unfaulted skeleton of (a)-(c) is accepted and gives the reference value;
+(e) histories of ONE formula object: the same expression object (as a user keeps the result of models.loglogit) is
+    applied to a sequence of data states -- new Database {clean, another clean sample, a choice without utility, a column
+    absent} / the current Database edited {offending rows removed with Database.remove, an invalid choice written in
+    place} -- every history up to the depth bound (2 uses quick, 3 thorough) x formula {logit, logit under an operator,
+    linear} x entry form; the verdict of every use must be the one the data at hand deserve (what a fresh copy of the
+    formula gets): refused with the library error when they hold the fault, accepted with the reference value when not.
 """
 from __future__ import annotations
 
@@ -24,8 +30,11 @@ ID = 'C12'
 LEVEL = 'exploration'
 TECHNIQUE = 'bounded exhaustive fault planting (operator x slot x fault kind x depth x entry form) and exhaustive missing-data cell placement on the real library/engine, oracle = library error type + message naming the element / lazy-read reference semantics'
 RULE = ('one case = one (parent kind, slot, fault kind, depth wrapper, entry form) specification, one structural fault x entry form, one '
-        '(formula, cell, code, entry form) missing-data placement, or one unfaulted skeleton x entry form. Non-trivial = a fault is planted or a '
-        'cell is set to the code; distinct = distinct tuples.')
+        '(formula, cell, code, entry form) missing-data placement, one unfaulted skeleton x entry form, or one use of a formula OBJECT at the end of a '
+        'history of data states it was applied to before (formula x entry form x every sequence over {new clean / other clean / invalid-choice / '
+        'column-absent Database, remove the offending rows, write an invalid choice in place}, first step a new Database, length <= 2 quick, '
+        '<= 3 thorough). Non-trivial = a fault is planted, a cell is set to the code, or the formula object is used for the second time or '
+        'later; distinct = distinct tuples.')
 ASSUMPTIONS = [
     'placement rules (draws / integration variable / panel variables) are specification rules: the library-error oracle is applied at the BIOGEME '
     'entry forms; at the expression-level entry points only "no number is returned" is required for draws / integration variables and nothing for '
@@ -148,13 +157,15 @@ def make_database(panel=False):
 CATALOG_FORMS = ('selected-member', 'selected-member-under-an-operator')
 
 
-def enter(entry, term, panel=False, rows=None, db=None, catalog=None):
-    """Runs one entry form on a freshly built expression; returns the value(s) if a number came back.
+def enter(entry, term, panel=False, rows=None, db=None, catalog=None, expr=None):
+    """Runs one entry form on a freshly built expression (or on the expression object `expr` when one is handed in: the
+    formula-object histories of part (e)); returns the value(s) if a number came back.
     `catalog`: the formula is the selected member of a Catalog (a multiple-expression node is one more operator kind a
     fault can sit under); the other member is the plain number 1."""
     from vf.engine import make_biogeme, make_db
     import numpy as np
-    expr = R.Builder(spec()).build(term)
+    if expr is None:
+        expr = R.Builder(spec()).build(term)
     if catalog is not None:
         from biogeme.catalog import Catalog
         import biogeme.expressions as ex
@@ -260,6 +271,10 @@ def tasks(tier, seed):
         for second in ('ll', 'lld', 'sim'):
             t.append(dict(part='stale_emptied', requests=[first, second], fresh=True))
     t.append(dict(part='sticky', fresh=True))
+    # (e) one formula object applied to a sequence of data states
+    for fname in REUSE_FORMULAS:
+        for entry in REUSE_ENTRIES:
+            t.append(dict(part='reuse', formula=fname, entry=entry, depth=3 if tier == 'thorough' else 2))
     # expected-error missing-data cases must be fresh; decided statically from the reference
     for task in t:
         if task['part'] == 'missing' and md_expect_error(task):
@@ -301,6 +316,8 @@ def run_task(task):
         _stale_emptied(task, rec)
     elif part == 'sticky':
         _sticky(rec)
+    elif part == 'reuse':
+        _reuse(task, rec)
     return rec.result()
 
 
@@ -1312,6 +1329,141 @@ def _sticky(rec):
                       f'process: {type(e).__name__}: {str(e)[:200]}', dict(part='sticky'), observed=repr(e)[:300])
 
 
+# ------------------------------------------------------------------ (e) histories of one formula object
+_RL = ('loglogit', ('var', 'choice'), ((1, ('*', ('beta', 'b_z'), ('var', 'x1')), None),
+                                       (2, ('*', ('beta', 'B2'), ('var', 'x2')), ('var', 'av2')), (3, ('num', 0.25), None)))
+REUSE_FORMULAS = {
+    'logit': _RL,
+    'logit-under-an-operator': ('+', _RL, ('*', ('beta', 'b_z'), ('var', 'x1'))),
+    'linear': ('+', ('*', ('beta', 'b_z'), ('var', 'x2')), ('var', 'x1')),
+}
+REUSE_ENTRIES = ('biogeme_expr', 'biogeme_dict', 'biogeme_simulate', 'get_value_c', 'get_value_and_derivatives')
+REUSE_NEW = ('new:clean', 'new:other-clean-sample', 'new:choice-without-utility', 'new:column-absent')
+REUSE_EDIT = ('remove-rows-with-the-invalid-choice', 'write-an-invalid-choice-in-place')
+REUSE_BAD_CHOICE = 7.0
+REUSE_ABSENT = 'x1'
+
+
+def reuse_histories(depth):
+    """Every sequence of steps of length exactly `depth` whose first step makes a Database (shorter ones are its prefixes:
+    every use along a history is judged)."""
+    return [(a,) + rest for a in REUSE_NEW for rest in itertools.product(REUSE_NEW + REUSE_EDIT, repeat=depth - 1)]
+
+
+def _reuse_step(step, db, rows, cols):
+    """Applies one step to the library's Database and to the reference table (rows, cols); returns the three."""
+    import biogeme.expressions as ex
+    from vf.engine import make_db
+    if step.startswith('new:'):
+        rows, cols = [dict(r) for r in G.ROWS], list(G.COLUMNS)
+        if step == 'new:other-clean-sample':
+            rows = [dict(r, x1=r['x1'] + 0.25) for r in reversed(rows[1:])]
+        elif step == 'new:choice-without-utility':
+            for i in (1, 3):
+                rows[i]['choice'] = REUSE_BAD_CHOICE
+        elif step == 'new:column-absent':
+            cols = [c for c in cols if c != REUSE_ABSENT]
+        return make_db(rows, cols), rows, cols
+    if step == 'remove-rows-with-the-invalid-choice':
+        db.remove(ex.Variable('choice') == REUSE_BAD_CHOICE)
+        rows = [r for r in rows if r['choice'] != REUSE_BAD_CHOICE]
+    else:
+        db.data.loc[db.data.index[0], 'choice'] = REUSE_BAD_CHOICE
+        rows = [dict(r) for r in rows]
+        rows[0]['choice'] = REUSE_BAD_CHOICE
+    return db, rows, cols
+
+
+def _reuse_history(fname, entry, history, rec, done):
+    """One formula object along one history; every use not judged before (prefix in `done`) is judged.  Returns False when the
+    process must not go on (engine error)."""
+    from vf.engine import is_engine_error
+    term = REUSE_FORMULAS[fname]
+    is_logit = 'loglogit' in R.kinds(term)
+    full = dict(G.PARAMS)
+    expr = R.Builder(spec()).build(term)          # ONE object for the whole history
+    db = rows = cols = None
+    for k, step in enumerate(history):
+        db, rows, cols = _reuse_step(step, db, rows, cols)
+        if len(db.data) != len(rows):
+            rec.violation('C12|harness|reuse-reference-table-out-of-step', f'{history[:k + 1]}: {len(db.data)} rows, reference {len(rows)}',
+                          dict(part='reuse', formula=fname, entry=entry, history=history[:k + 1]))
+            return True
+        hist = tuple(history[:k + 1])
+        faults = []
+        if REUSE_ABSENT not in cols:
+            faults.append(REUSE_ABSENT)
+        if is_logit and any(r['choice'] not in (1.0, 2.0, 3.0) for r in rows):
+            faults += ['choice', 'alternative']
+        judged = hist not in done
+        done.add(hist)
+        key = ('reuse', fname, entry, hist) if k >= 1 else None
+        case = dict(part='reuse', formula=fname, entry=entry, history=list(hist))
+        prev = 'first-use' if k == 0 else history[k - 1]
+        where = f'formula-object-used-again:after={prev}:now={step}'
+        try:
+            out = enter(entry, term, db=db, expr=expr)
+        except Exception as e:
+            if not judged:
+                if is_engine_error(e):
+                    rec.retire = True
+                    return False
+                continue
+            if is_library_error(e) and faults:
+                named = any(f in str(e).lower() for f in faults)
+                rec.case(key, (fname, entry, hist, 'BiogemeError', named), outcome=('refused', named))
+                if not named:
+                    rec.violation(f'C12|error-does-not-name-the-element|{where}', f'{fname} via {entry} along {list(hist)}: message does not '
+                                  f'mention any of {faults}: {str(e)[:200]}', case)
+                continue
+            if faults:
+                rec.case(key, (fname, entry, hist, type(e).__name__), outcome=('wrong-error', type(e).__name__))
+                rec.violation(f'C12|wrong-error-type-{type(e).__name__}|{where}',
+                              f'the formula object {fname} applied along {list(hist)} through {entry}: the data hold the fault {faults[0]} but '
+                              f'{type(e).__name__}: {str(e)[:160]} was raised instead of the library error', case, observed=repr(e)[:300])
+            else:
+                rec.case(key, (fname, entry, hist, type(e).__name__), outcome='rejected')
+                rec.violation(f'C12|valid-specification-rejected-{type(e).__name__}|{where}',
+                              f'the formula object {fname} applied along {list(hist)} through {entry}: the data at hand ({len(rows)} rows, choices '
+                              f'{sorted(set(r["choice"] for r in rows))}, columns {cols}) hold no fault, yet the last use was rejected: '
+                              f'{type(e).__name__}: {str(e)[:200]}', case, observed=repr(e)[:300])
+            if is_engine_error(e):
+                rec.retire = True
+                return False
+            return True                           # the state of the object after a wrong verdict is not modelled: the history stops
+        if not judged:
+            continue
+        if faults:
+            rec.case(key, (fname, entry, hist, 'accepted'), outcome='accepted')
+            rec.violation(f'C12|faulty-specification-accepted|{where}',
+                          f'the formula object {fname} applied along {list(hist)} through {entry}: the data hold the fault {faults[0]} yet '
+                          f'{out} was returned', case, observed=out)
+            rec.retire = True
+            return False
+        refs = [R.evaluate(term, r, full) for r in rows]
+        want = refs if entry in ROW_ENTRIES else [sum(refs)]
+        ok = len(out) == len(want) and all(R.close(a, b, rel=1e-9) for a, b in zip(out, want))
+        rec.case(key, (fname, entry, hist, [round(v, 8) for v in out]), outcome=('accepted', ok))
+        rec.count('reuse_valid_uses')
+        if not ok:
+            rec.violation(f'C12|valid-specification-wrong-value|{where}',
+                          f'the formula object {fname} applied along {list(hist)} through {entry}: {out} expected {want}', case,
+                          expected=want, observed=out)
+            return True
+    return True
+
+
+def _reuse(task, rec):
+    done = set()
+    hs = reuse_histories(task['depth'])
+    rec.sample(dict(part='reuse', formula=task['formula'], entry=task['entry'], histories=len(hs), example=list(hs[-1])))
+    for h in hs:
+        if not _reuse_history(task['formula'], task['entry'], list(h), rec, done):
+            rec.count('capped')
+            rec.count('reuse_tasks_cut_short_after_engine_error')
+            return
+
+
 def replay(case):
     rec = Rec()
     part = case['part']
@@ -1362,4 +1514,6 @@ def replay(case):
         _missing(case, rec)
     elif part == 'sticky':
         _sticky(rec)
+    elif part == 'reuse':
+        _reuse_history(case['formula'], case['entry'], list(case['history']), rec, set())
     return rec.violations
